@@ -279,11 +279,17 @@ impl std::fmt::Display for InvalidProofKind {
                 leaf_index,
                 tree_size,
             } => {
-                let tree_index = crate::leaf_index_to_tree_index(*leaf_index);
-                f.write_fmt(format_args!(
-                    "leaf index {leaf_index} corresponding to tree index {tree_index} exceeds \
-                     tree of size {tree_size}"
-                ))
+                // The tree index of the leaf is `2 * leaf_index`. This error is reported for
+                // arbitrary (untrusted) leaf indices, so rendering it must not overflow.
+                match leaf_index.checked_mul(2) {
+                    Some(tree_index) => f.write_fmt(format_args!(
+                        "leaf index {leaf_index} corresponding to tree index {tree_index} \
+                         exceeds tree of size {tree_size}"
+                    )),
+                    None => f.write_fmt(format_args!(
+                        "leaf index {leaf_index} exceeds tree of size {tree_size}"
+                    )),
+                }
             }
             InvalidProofKind::ZeroTreeSize => f.pad("proof is undefined for trees of size zero"),
         }
